@@ -108,10 +108,18 @@ def render(cfg, dev):
 def merge_files(case):
     pa = case["tgt"]["parts"]
     raw = None
-    if pa["pre"] or pa["app"]:
-        lines = ["*filter", ":INPUT DROP"] + [rule_text("INPUT", r, False) for r in pa["pre"]]
-        if pa["app"]:
-            lines += ["[APPEND]"] + [rule_text("INPUT", r, False) for r in pa["app"]]
+    xc, xt = pa.get("xchain"), pa.get("xtable")
+    if pa["pre"] or pa["app"] or xc or xt:
+        lines = []
+        if pa["pre"] or pa["app"] or xc:
+            lines = ["*filter", ":INPUT DROP"] + ([":c9 -"] if xc else [])
+            lines += [rule_text("INPUT", r, False) for r in pa["pre"]]
+            if xc:
+                lines.append(rule_text("c9", {"id": "tcp8080"}, False))
+            if pa["app"]:
+                lines += ["[APPEND]"] + [rule_text("INPUT", r, False) for r in pa["app"]]
+        if xt:
+            lines += ["*mangle", ":PREROUTING ACCEPT", rule_text("PREROUTING", {"id": "markhex"}, False)]
         raw = "\n".join(lines) + "\n"
     return None, raw
 
